@@ -121,8 +121,12 @@ class RelativeSequence(AbstractSequence):
                         continue
                 elif msg.message_type == MessageType.NOTE_OFF:
                     note_list = open_messages[msg.channel].get(msg.note, [])
-                    if len(note_list) > 0:
-                        note_list.pop(-1)
+
+                    # Skip message if note was never opened
+                    if len(note_list) == 0:
+                        continue
+
+                    note_list.pop(-1)
                     open_messages[msg.channel][msg.note] = note_list
 
                     # Skip message if note not yet closed
